@@ -60,6 +60,8 @@ pub enum Which {
     Interning,
     /// C24: identities distinct under concurrent creation
     Identities,
+    /// C19: protocol trace invariants over a mix of acyclic and cyclic programs
+    Proto,
 }
 
 fn gen_plan(t: &mut Tape, prog: &Program, which: Which, max_ops: u32) -> Vec<TOp> {
@@ -68,13 +70,15 @@ fn gen_plan(t: &mut Tape, prog: &Program, which: Which, max_ops: u32) -> Vec<TOp
     (0..n)
         .map(|_| {
             let k = match which {
-                Which::Readers | Which::Cycles => 0,
+                Which::Readers | Which::Cycles | Which::Proto => 0,
                 Which::Interning => t.weighted(&[3, 4]),
                 Which::Identities => t.weighted(&[3, 2, 4, 2]),
             };
             match k {
                 0 => {
-                    let node = t.pick(nn) as u8;
+                    // cyclic programs: enter at members of the cyclic layer most of the time
+                    let cyc: Vec<u8> = prog.nodes.iter().enumerate().filter(|(_, n)| matches!(n.kind, Kind::Fix | Kind::FixJoin | Kind::Fall)).map(|(i, _)| i as u8).collect();
+                    let node = if prog.lattice && !cyc.is_empty() && t.chance(3, 4) { cyc[t.pick(cyc.len() as u32) as usize] } else { t.pick(nn) as u8 };
                     TOp::Get { node, arg: t.pick(prog.nodes[node as usize].nargs as u32) as u8 }
                 }
                 1 => TOp::Intern { ty: t.weighted(&[3, 3, 3, 2]) as u8, x: t.pick(4) },
@@ -125,6 +129,7 @@ pub fn profile(which: Which) -> Profile {
             pf.ret_h_pct = 90;
             pf
         }
+        Which::Proto => profile(Which::Cycles),
         Which::Identities => {
             let mut pf = Profile::base();
             pf.max_nodes = 5;
@@ -145,6 +150,7 @@ pub fn gen_shut_case(tape: &[u32], which: Which, iterations: u32) -> ShutCase {
     let sched_seed = ((t.raw() as u64) << 32) | t.raw() as u64;
     let sched = t.weighted(&[3, 1, 2, 2, 1]) as u8; // random, pct1, pct2, pct3, pct5
     let sched = if sched == 4 { 5 } else { sched };
+    let which = if which == Which::Proto { if t.chance(2, 3) { Which::Cycles } else { Which::Readers } } else { which };
     let pf = profile(which);
     let prog = gen_program(&mut t, &pf);
     let nt = 2 + t.pick(3);
@@ -168,7 +174,7 @@ pub fn gen_shut_case(tape: &[u32], which: Which, iterations: u32) -> ShutCase {
             }
             any_if(ops, (w.0, w.1))
         };
-        let excluded = which == Which::Cycles && (prog.nodes.iter().any(|n| n.kind == Kind::Fall) || prog.nodes.iter().any(|n| reshapes(&n.body)));
+        let excluded = prog.lattice && (prog.nodes.iter().any(|n| n.kind == Kind::Fall) || prog.nodes.iter().any(|n| reshapes(&n.body)));
         if excluded { (None, vec![]) } else { (Some(w), plans) }
     } else {
         (None, vec![])
@@ -202,6 +208,9 @@ struct Shared {
     page_shared: AtomicBool,
     max_block: AtomicU64,
     steps: AtomicU64,
+    proto_blocks: AtomicU64,
+    proto_transfers: AtomicU64,
+    proto_bad_wakes: AtomicU64,
 }
 
 fn run_thread(db: VDb, tid: u32, plan: Vec<TOp>) -> Vec<TRes> {
@@ -368,7 +377,7 @@ fn check_phase(pc: &PhaseCheck, results: &[Vec<TRes>], log: &[Rec], sh: &Shared,
             sh.contended_exec.store(true, Ordering::Relaxed);
         }
     }
-    if pc.which == Which::Cycles {
+    if prog.lattice {
         let lat = Lat::new(prog, pc.model);
         for c in lat.cycles() {
             let mut ts: BTreeSet<u32> = BTreeSet::new();
@@ -458,6 +467,7 @@ pub fn run_shut_case(which: Which, case: &ShutCase) -> SeqOutcome {
         let case = &*case_a;
         let it = sh2.iters_done.load(Ordering::SeqCst);
         let prog = Arc::new(case.prog.clone());
+        let prog_lattice = case.prog.lattice;
         let mut model = Model::new(&case.prog);
         let mut world = World::new(prog, &model.vals, model.cells.clone());
         world.take_log();
@@ -470,10 +480,14 @@ pub fn run_shut_case(which: Which, case: &ShutCase) -> SeqOutcome {
         // listed finding cyc-kf1: a cycle finalized in phase 1 while the dependency list of one
         // of its heads was still changing -> stale members are possible in phase 2
         let mut unstable = false;
+        let mut proto = crate::props::c19::ProtoCheck::default();
         {
             use salsa::verif_hooks::TraceEvent as T;
             let mut last: BTreeMap<(u32, u64), bool> = BTreeMap::new();
-            for h in salsa::verif_hooks::drain() {
+            let evs = salsa::verif_hooks::drain();
+            proto.feed(&evs, &mut v);
+            proto.finish(&mut v);
+            for h in evs {
                 if let T::CycleHead { ingredient, key, finalized, deps_stable, .. } = h {
                     last.insert((ingredient, key), deps_stable);
                     if finalized {
@@ -491,11 +505,15 @@ pub fn run_shut_case(which: Which, case: &ShutCase) -> SeqOutcome {
             }
             model.vals[slot as usize][field as usize].0 = val;
             world.take_log();
+            salsa::verif_hooks::start();
             let r2 = run_phase(&world, &case.phase2);
             let log2 = world.take_log();
             let before = v.len();
             check_phase(&PhaseCheck { which, case, model: &model, phase: 2 }, &r2, &log2, &sh2, &mut ids, &mut v);
-            if unstable && which == Which::Cycles {
+            let evs = salsa::verif_hooks::drain();
+            proto.feed(&evs, &mut v);
+            proto.finish(&mut v);
+            if unstable && prog_lattice {
                 for x in v[before..].iter_mut() {
                     if x.rule == "value-mismatch" {
                         x.rule = crate::props::cyc::KF_STALE_DEPS.to_string();
@@ -503,6 +521,9 @@ pub fn run_shut_case(which: Which, case: &ShutCase) -> SeqOutcome {
                 }
             }
         }
+        sh2.proto_blocks.fetch_add(proto.blocks, Ordering::Relaxed);
+        sh2.proto_transfers.fetch_add(proto.transfers, Ordering::Relaxed);
+        sh2.proto_bad_wakes.fetch_add(proto.wakes_not_completed, Ordering::Relaxed);
         // same new value interned by more than one requester in one revision
         if ids.sym_interns.values().any(|c| *c >= 2) {
             sh2.same_value_race.store(true, Ordering::Relaxed);
@@ -561,6 +582,7 @@ pub fn run_shut_case(which: Which, case: &ShutCase) -> SeqOutcome {
         Which::Cycles => sh.scc_two_threads.load(Ordering::Relaxed),
         Which::Interning => sh.same_value_race.load(Ordering::Relaxed),
         Which::Identities => sh.page_shared.load(Ordering::Relaxed),
+        Which::Proto => sh.proto_blocks.load(Ordering::Relaxed) > 0 && sh.proto_transfers.load(Ordering::Relaxed) > 0,
     };
     if nt {
         outc.labels.push("nontrivial");
@@ -582,6 +604,11 @@ pub fn run_shut_case(which: Which, case: &ShutCase) -> SeqOutcome {
     }
     outc.labels.push(if case.sched == 0 { "sched-random" } else { "sched-pct" });
     outc.counters.push(("schedules", done));
+    outc.counters.push(("protocol_blocks", sh.proto_blocks.load(Ordering::Relaxed)));
+    outc.counters.push(("protocol_transfers", sh.proto_transfers.load(Ordering::Relaxed)));
+    if sh.proto_transfers.load(Ordering::Relaxed) > 0 {
+        outc.labels.push("trace-has-transfer");
+    }
     if let Some(p) = std::env::var_os("VH_CURRENT") {
         if outc.violations.is_empty() {
             let _ = std::fs::remove_file(p);
@@ -599,6 +626,7 @@ pub fn rule_belongs(prop: &str, rule: &str) -> bool {
         "C17" => rule == "executed-twice-in-one-revision",
         "C18" => termination || rule == "value-mismatch" || rule.starts_with("kf:"),
         "C08" => rule.starts_with("interned-"),
+        "C19" => rule.starts_with("c19-"),
         "C24" => rule.starts_with("input-") || rule.starts_with("struct-") || rule.starts_with("interned-") || rule == "unexpected-panic" || rule == "panic-under-shuttle",
         _ => true,
     }
@@ -610,6 +638,7 @@ pub fn which_of(prop: &str) -> Option<Which> {
         "C18" => Some(Which::Cycles),
         "C08" => Some(Which::Interning),
         "C24" => Some(Which::Identities),
+        "C19" => Some(Which::Proto),
         _ => None,
     }
 }
